@@ -162,6 +162,7 @@ qb_log_thread_start(void)
 	if (res != 0) {
 		wthread_active = QB_FALSE;
 		(void)qb_thread_lock_destroy(logt_wthread_lock);
+		logt_wthread_lock = NULL;
 		return -res;
 	}
 	sem_wait(&logt_thread_start);
@@ -201,7 +202,7 @@ cleanup_pthread:
 void
 qb_log_thread_pause(struct qb_log_target *t)
 {
-	if (t->threaded) {
+	if (t->threaded && logt_wthread_lock != NULL) {
 		(void)qb_thread_lock(logt_wthread_lock);
 	}
 }
@@ -209,7 +210,7 @@ qb_log_thread_pause(struct qb_log_target *t)
 void
 qb_log_thread_resume(struct qb_log_target *t)
 {
-	if (t->threaded) {
+	if (t->threaded && logt_wthread_lock != NULL) {
 		(void)qb_thread_unlock(logt_wthread_lock);
 	}
 }
@@ -221,6 +222,12 @@ qb_log_thread_log_post(struct qb_log_callsite *cs,
 	struct qb_log_record *rec;
 	size_t buf_size;
 	size_t total_size;
+
+	if (logt_wthread_lock == NULL) {
+		/* the thread is not running, write the message out directly */
+		qb_log_thread_log_write(cs, timestamp, buffer);
+		return;
+	}
 
 	rec = malloc(sizeof(struct qb_log_record));
 	if (rec == NULL) {
@@ -303,6 +310,9 @@ qb_log_thread_stop(void)
 		pthread_join(logt_thread_id, NULL);
 	}
 	(void)qb_thread_lock_destroy(logt_wthread_lock);
+	logt_wthread_lock = NULL;
+	wthread_active = QB_FALSE;
+	wthread_should_exit = QB_FALSE;
 	sem_destroy(&logt_print_finished);
 	sem_destroy(&logt_thread_start);
 }
